@@ -186,11 +186,27 @@ def parse_eq(cls, src):
   return l
 
 def parse_hash(cls, src):
+  """returns ('fields', paths) for hash((self.a,self.b,)) or ('slots', paths) when list fields are expanded into nested tuples
+  of their elements (every slot exactly once, row-major)"""
   body = parse_def(src, '__hash__', ['self'])
   _need(len(body) == 1 and isinstance(body[0], ast.Return), '__hash__: body is not one return')
   v = body[0].value
   _need(isinstance(v, ast.Call) and is_name(v.func, 'hash') and len(v.args) == 1 and not v.keywords, '__hash__: not hash((...))')
-  return _field_tuple(cls, v.args[0], 'self', '__hash__')
+  t = v.args[0]
+  _need(isinstance(t, ast.Tuple), '__hash__: not a tuple of fields')
+  if not any(isinstance(e, ast.Tuple) for e in t.elts):
+    return 'fields', _field_tuple(cls, t, 'self', '__hash__')
+  out = []
+  def flat(e):
+    if isinstance(e, ast.Tuple):
+      _need(len(e.elts) > 0, '__hash__: empty tuple')
+      for x in e.elts: flat(x)
+    else:
+      p, sh = model_path(cls, chain(e, 'self'))
+      _need(sh[0] in 'bs', '__hash__: a list is hashed as such')
+      out.append(p)
+  for e in t.elts: flat(e)
+  return 'slots', out
 
 # ----------------------------------------------------------------------------- Coq terms
 def t_path(p):
